@@ -201,6 +201,20 @@ def main():
                 onp.all(tensor_jacobian_product(lambda p_, z, w: z * z * w, 1)(p, a, b, vv_) == 2.0 * a * b * vv_),
                 onp.all(_ggn_(lambda p_, z: z * p_, lambda y: anp.sum(y * y), 1)(p, a)(vv_) == 2.0 * p * p * vv_),
             ]
+            # hessian of a vector-valued function is jacobian(jacobian): shape out + in + in, entry by entry
+            for oshape in ((2,), (2, 2), (1,)):
+                cf2 = onp.arange(1.0, 1.0 + int(onp.prod(oshape))).reshape(oshape)
+                vmap = lambda z, cf2=cf2: cf2 * anp.sum(z * z * z) + cf2 * cf2 * anp.sum(z) ** 2      # noqa: E731
+                Hjj = jacobian(jacobian(vmap))(a)
+                checks.append(neg(lambda vmap=vmap, Hjj=Hjj: onp.shape(hessian(vmap)(a)) == onp.shape(Hjj) and onp.all(hessian(vmap)(a) == Hjj)))
+            # make_ggnvp / make_hvp objects applied at a second, different point (non-quadratic outer function)
+            gg = _ggn_(lambda z: z * z, lambda y: anp.sum(y * y * y))
+            fresh1 = _ggn_(lambda z: z * z, lambda y: anp.sum(y * y * y))(a)(vv_)
+            fresh2 = _ggn_(lambda z: z * z, lambda y: anp.sum(y * y * y))(a + 1.0)(vv_)
+            checks += [onp.all(gg(a)(vv_) == fresh1), onp.all(gg(a + 1.0)(vv_) == fresh2), onp.all(gg(a)(vv_) == fresh1)]
+            hv = make_hvp(lambda z: anp.sum(z * z * z * z))
+            checks += [onp.all(hv(a)[0](vv_) == 12.0 * a * a * vv_), onp.all(hv(a + 1.0)[0](vv_) == 12.0 * (a + 1.0) ** 2 * vv_),
+                       onp.all(hv(a)[0](vv_) == 12.0 * a * a * vv_)]
             # tensor-Jacobian products with tensors of rank 1, 2 against outputs of rank 1..3 (square leading axes included)
             from autograd import vector_jacobian_product as _vjp_op
             for oshape in ((3,), (3, 3), (3, 3, 2), (2, 3, 3), (3, 2)):
